@@ -191,7 +191,12 @@ class SPARQLQueryHelper(object):
                         "https://www.w3.org/TR/shacl/#sparql-prefixes",
                     )
                 namespace = next(iter(namespace_vals))  # type: rdflib.Literal
-                if not (isinstance(namespace, rdflib.Literal) and namespace.datatype == XSD.anyURI):
+                if not isinstance(namespace, rdflib.Literal):
+                    raise ConstraintLoadError(
+                        "sh:namespace value must be an RDF Literal with type xsd:anyURI.",
+                        "https://www.w3.org/TR/shacl/#sparql-prefixes",
+                    )
+                if not (namespace.datatype == XSD.anyURI):
                     if prefix == "sh" and isinstance(namespace.value, str):
                         # Known bug in shacl.ttl https://github.com/w3c/data-shapes/issues/125
                         pass
